@@ -31,6 +31,7 @@ RULE = ("One evaluation = one seeded execution: each side declares "
 RULE += (' A connect() that fails is itself a violation.')
 RULE += (' A fifth configuration uses transports with bounded send buffers drained by the scheduler (back-pressure reaches Outbound) and up to 4 losses; in half of the non-half-close runs protocols greet from inside connectionMade().')
 RULE += (' In half of the non-half-close runs applications pause and resume subchannels (all resumed at the end) with at least two losses; not settling within 10000 events / 600 s after the last fault is a violation.')
+RULE += (' Those applications also react from inside dataReceived (answer, answer and close, close) and sometimes open the next subchannel from inside connectionLost.')
 LEVEL_TEXT = ("Seeded exploration. Each connect() => exactly one "
               "buildProtocol+connectionMade on the peer under the same name "
               "(at listen time if the listener comes later); ids allocated by "
